@@ -1567,3 +1567,228 @@ class Uniform(Contract):
 
     def canary(self, S, res):
         return zi(res.order) == zi(S.o['row_dims'].length) + 1 if isinstance(res, STT) else None
+
+
+# ----------------------------------------------------------------------------------------------------------------------
+# tensordot (C02, C06)
+
+MODES = ['last-first', 'last-last', 'first-last', 'first-first']
+
+
+def _tdot_meta(mode, S_, O_, s_, o_, d, e, k):
+    """documented result metadata.  S_/O_: j -> row (or col) dim of self/other; s_/o_: j -> rank.  Returns
+    (case_both, case_self_complete) -> (order, dim(j, S, O), rank(j))"""
+    both = z3.And(k == d, k == e)
+    selfc = z3.And(k == d, k != e)
+    if mode == 'last-first':
+        part = (d - k + e - k, lambda j, S, O: z3.If(j < d - k, S(j), O(j - (d - k) + k)), lambda j: z3.If(j < d - k, s_(j), o_(j - (d - k) + k)))
+        selfcomp = (e - k, lambda j, S, O: O(j + k), lambda j: z3.If(j == 0, s_(0), o_(j + k)))
+        bothr = (s_(0), o_(e))
+    elif mode == 'last-last':
+        part = (d - k + e - k, lambda j, S, O: z3.If(j < d - k, S(j), O(e - k - 1 - (j - (d - k)))), lambda j: z3.If(j < d - k, s_(j), o_(e - k - (j - (d - k)))))
+        selfcomp = (e - k, lambda j, S, O: O(e - k - 1 - j), lambda j: z3.If(j == 0, s_(0), o_(e - k - j)))
+        bothr = (s_(0), o_(0))
+    elif mode == 'first-last':
+        part = (e - k + d - k, lambda j, S, O: z3.If(j < e - k, O(j), S(j - (e - k) + k)), lambda j: z3.If(j <= e - k, o_(j), s_(j - (e - k) + k)))
+        selfcomp = (e - k, lambda j, S, O: O(j), lambda j: z3.If(j < e - k, o_(j), s_(d)))
+        bothr = (s_(d), o_(0))
+    else:
+        part = (e - k + d - k, lambda j, S, O: z3.If(j < e - k, O(e - 1 - j), S(j - (e - k) + k)), lambda j: z3.If(j <= e - k, o_(e - j), s_(j - (e - k) + k)))
+        selfcomp = (e - k, lambda j, S, O: O(e - 1 - j), lambda j: z3.If(j < e - k, o_(e - j), s_(d)))
+        bothr = (s_(d), o_(e))
+    return both, selfc, part, selfcomp, bothr
+
+
+@register
+class Tensordot(Contract):
+    name, func = 'TT.tensordot', 'tensordot'
+    props = ('C02', 'C06')
+
+    def instances(self):
+        return [{'mode': m, 'overwrite': ow} for m in MODES for ow in (False, True)] + [{'mode': 'middle', 'overwrite': False}]
+
+    def defaults(self):
+        return {'mode': 'last-first', 'overwrite': False}
+
+    def call_inst(self, A):
+        return {'mode': A.get('mode', 'last-first'), 'overwrite': A.get('overwrite', False)}
+
+    def mutated(self, A):
+        if A.get('overwrite', False) is True:
+            me = A['self']
+            return [me.cores, me.ranks, me.row_dims, me.col_dims]
+        return []
+
+    def setup(self, ex, state, inst):
+        m0 = ex.ctx.mark0
+        me, other = mk_tt(state, 'self', m0), mk_tt(state, 'other', m0)
+        state.assume(me.ref != other.ref)
+        for a in (me, other):
+            for b in (me, other):
+                if a is not b:
+                    state.assume(z3.Distinct(a.cores.ref, b.cores.ref, a.ranks.ref, b.ranks.ref, a.row_dims.ref, b.row_dims.ref, a.col_dims.ref, b.col_dims.ref))
+        return {'self': me, 'other': other, 'num_axes': fresh('num_axes'), 'mode': inst['mode'], 'overwrite': inst['overwrite']}
+
+    def requires(self, S):
+        # derived from the code: cores[first_idx] is read before any check, so at least one axis is contracted
+        yield 'num_axes>=1', zi(S.a['num_axes']) >= 1
+
+    def modifies(self, S):
+        if S.inst.get('overwrite'):
+            me = S.o['self']
+            return [me.ref, me.row_dims.ref, me.col_dims.ref, me.ranks.ref, me.cores.ref], []
+        return [], []
+
+    def _idx(self, S):
+        me, o, k, mode = S.o['self'], S.o['other'], zi(S.o['num_axes']), S.inst['mode']
+        d, e = zi(me.order), zi(o.order)
+        fs = d - k if mode.startswith('last') else z3.IntVal(0)
+        fo = e - k if mode.endswith('last') else z3.IntVal(0)
+        return me, o, k, d, e, fs, fo
+
+    def exceptional(self, S):
+        mode = S.inst['mode']
+        if mode not in MODES:
+            return {'ValueError': True}
+        me, o, k, d, e, fs, fo = self._idx(S)
+        too_big = z3.Or(k > d, k > e)
+        match = z3.And(FA(fs, fs + k, lambda t: lst_get(me.row_dims, t) == lst_get(o.row_dims, t - fs + fo)),
+                       FA(fs, fs + k, lambda t: lst_get(me.col_dims, t) == lst_get(o.col_dims, t - fs + fo)))
+        rs = lst_get(me.ranks, d) if mode.startswith('last') else lst_get(me.ranks, 0)
+        ro = lst_get(o.ranks, e) if mode.endswith('last') else lst_get(o.ranks, 0)
+        return {'ValueError': z3.Or(too_big, z3.And(z3.Not(too_big), z3.Not(match)), rs != 1, ro != 1)}
+
+    def ensures(self, S, res):
+        mode = S.inst['mode']
+        me0 = S.o['self']
+        yield 'returns-TT', isinstance(res, STT)
+        if not isinstance(res, STT) or mode not in MODES:
+            return
+        me, o, k, d, e, fs, fo = self._idx(S)
+        yield 'wf(result)', wf(res)
+        if S.inst['overwrite']:
+            yield 'result-is-self', res.ref == me0.ref
+            # every core of the result is fresh or one of self's own buffers; never a buffer of `other`
+            jj = fresh('jj')
+            n = zi(res.order)
+            yield 'result-buffers-fresh-or-selfs', FA(0, n, lambda j: z3.Or(lst_get(res.cores, j).buf >= S.mark0,
+                                                                           z3.Exists([jj], z3.And(jj >= 0, jj < d, lst_get(res.cores, j).buf == lst_get(me.cores, jj).buf))))
+        else:
+            yield 'result-object-and-lists-fresh', meta_fresh(res, S.mark0)
+            yield 'result-buffers-fresh', cores_fresh(res, S.mark0)
+            yield 'result-lists-distinct', lists_distinct(res)
+        s_ = lambda j: lst_get(me.ranks, j)  # noqa
+        o_ = lambda j: lst_get(o.ranks, j)  # noqa
+        both, selfc, part, selfcomp, bothr = _tdot_meta(mode, None, None, s_, o_, d, e, k)
+        n = zi(res.order)
+        yield 'order', n == z3.If(both, z3.IntVal(1), z3.If(selfc, selfcomp[0], part[0]))
+        for nm, mine, theirs, got in (('row_dims', me.row_dims, o.row_dims, res.row_dims), ('col_dims', me.col_dims, o.col_dims, res.col_dims)):
+            Sf = lambda j, mine=mine: lst_get(mine, j)  # noqa
+            Of = lambda j, theirs=theirs: lst_get(theirs, j)  # noqa
+            yield nm, FA(0, n, lambda j, Sf=Sf, Of=Of, got=got: lst_get(got, j) == z3.If(both, z3.IntVal(1), z3.If(selfc, selfcomp[1](j, Sf, Of), part[1](j, Sf, Of))))
+        yield 'ranks', FA(0, n + 1, lambda j: lst_get(res.ranks, j) == z3.If(both, z3.If(j == 0, bothr[0], bothr[1]), z3.If(selfc, selfcomp[2](j), part[2](j))))
+
+    def canary(self, S, res):
+        return zi(res.order) == 0 if isinstance(res, STT) else None
+
+    # -- loop invariants ---------------------------------------------------------------------------------------------------
+    def invariant(self, key, inst):
+        mode = inst['mode']
+        if mode not in MODES:
+            return None
+        me_ = self
+
+        def geo(V):
+            me, o, k = V.old('self'), V.old('other'), zi(V.old('num_axes'))
+            d, e = zi(me.order), zi(o.order)
+            fs = d - k if mode.startswith('last') else z3.IntVal(0)
+            fo = e - k if mode.endswith('last') else z3.IntVal(0)
+            return me, o, k, d, e, fs, fo
+
+        def inv_M(V, i, kk):
+            me, o, k, d, e, fs, fo = geo(V)
+            M = V['M']
+            yield 'M', z3.And(M.shape[0] == lst_get(me.ranks, fs), M.shape[1] == lst_get(me.ranks, fs + i), M.shape[2] == lst_get(o.ranks, fo),
+                              M.shape[3] == lst_get(o.ranks, fo + i), M.buf >= V.mark0) if len(M.shape) == 4 else False
+
+        def tlist(V):
+            return V.working_tt('tdot').cores
+
+        def other_T(o, q, transposed):
+            """shape of other's core q, possibly rank-transposed"""
+            r0, r1 = (lst_get(o.ranks, q + 1), lst_get(o.ranks, q)) if transposed else (lst_get(o.ranks, q), lst_get(o.ranks, q + 1))
+            return r0, lst_get(o.row_dims, q), lst_get(o.col_dims, q), r1
+
+        def fresh_or_self(V, c, me, d):
+            if inst['overwrite']:
+                jj = fresh('jj')
+                return z3.Or(c.buf >= V.mark0, z3.Exists([jj], z3.And(jj >= 0, jj < d, c.buf == lst_get(me.cores, jj).buf)))
+            return c.buf >= V.mark0
+
+        def inv_T_complete(V, i, kk):
+            # complete contraction over self: list = [merged] + reversed remaining cores of other, all to be rank-transposed
+            me, o, k, d, e, fs, fo = geo(V)
+            L = tlist(V)
+            M0 = lst_get(me.ranks, d) if False else None
+            n = e - k
+            yield 'len', z3.And(zi(L.length) == n, L.ref >= V.mark0, k == d, k != e, k <= e)
+            srank = lst_get(me.ranks, 0) if mode == 'last-last' else lst_get(me.ranks, d)
+
+            def elem(j):
+                c = lst_get(L, j)
+                if mode == 'last-last':
+                    # position 0: other core fo-1 with its right rank replaced by s[0]; position j>0: other core fo-1-j
+                    q = fo - 1 - j
+                    r0, m, nn, r1 = other_T(o, q, False)
+                    r1 = z3.If(j == 0, srank, r1)
+                    shp_un = (r0, m, nn, r1)
+                    shp_tr = (r1, m, nn, r0)
+                    done = j < i
+                else:   # first-first: list = reversed(other[lo+2:]) + [merged(other[lo+1])]; lo = k-1
+                    q = e - 1 - j
+                    r0, m, nn, r1 = other_T(o, q, False)
+                    r0 = z3.If(j == n - 1, srank, r0)
+                    shp_un = (r0, m, nn, r1)
+                    shp_tr = (r1, m, nn, r0)
+                    done = j < i
+                return z3.And(z3.If(done, core_shape_ok(c, *shp_tr), core_shape_ok(c, *shp_un)), c.buf >= V.mark0)
+            yield 'elements', FA(0, n, elem)
+
+        def inv_T_partial(V, i, kk):
+            me, o, k, d, e, fs, fo = geo(V)
+            L = tlist(V)
+            if mode == 'last-last':
+                # list = self[:fs] (core fs-1 merged with M -> last rank o[fo]) + reversed(other[:fo]); transposed from fs on
+                n = fs + fo
+                yield 'len', z3.And(zi(L.length) == n, k < d, k <= e, k >= 1, L.ref >= V.mark0 if not inst['overwrite'] else z3.BoolVal(True))
+
+                def elem(j):
+                    c = lst_get(L, j)
+                    q = fo - 1 - (j - fs)
+                    r0, m, nn, r1 = other_T(o, q, False)
+                    mine = core_shape_ok(c, lst_get(me.ranks, j), lst_get(me.row_dims, j), lst_get(me.col_dims, j), z3.If(j == fs - 1, lst_get(o.ranks, fo), lst_get(me.ranks, j + 1)))
+                    theirs = z3.If(j < i, core_shape_ok(c, r1, m, nn, r0), core_shape_ok(c, r0, m, nn, r1))
+                    return z3.And(z3.If(j < fs, mine, theirs), fresh_or_self(V, c, me, d))
+                yield 'elements', FA(0, n, elem)
+            else:   # first-first: list = reversed(other[lo+1:]) + self[ls+1:] (first of those merged); first e-k transposed
+                n = (e - k) + (d - k)
+                yield 'len', z3.And(zi(L.length) == n, k < d, k <= e, k >= 1)
+
+                def elem(j):
+                    c = lst_get(L, j)
+                    q = e - 1 - j
+                    r0, m, nn, r1 = other_T(o, q, False)
+                    p = j - (e - k) + k
+                    mine = core_shape_ok(c, z3.If(j == e - k, lst_get(o.ranks, k), lst_get(me.ranks, p)), lst_get(me.row_dims, p), lst_get(me.col_dims, p), lst_get(me.ranks, p + 1))
+                    theirs = z3.If(j < i, core_shape_ok(c, r1, m, nn, r0), core_shape_ok(c, r0, m, nn, r1))
+                    return z3.And(z3.If(j < e - k, theirs, mine), fresh_or_self(V, c, me, d))
+                yield 'elements', FA(0, n, elem)
+        if key == 'i in range(1, num_axes)':
+            return inv_M
+        if key == 'i in range(len(tdot.cores))':
+            return inv_T_complete
+        if key in ('i in range(first_idx_self, len(tdot.cores))', 'i in range(other.order - num_axes)'):
+            return inv_T_partial
+        return None
+
+    loop_ordinals = {0: 'i in range(1, num_axes)'}
